@@ -344,6 +344,16 @@ def r_weighted(ctx):
                       for t in terms)
         obj = run.heap.get((SELF, "_objective"))
         ok_obj = isinstance(obj, tuple) and obj[0] == "obj" and run.heap.get((obj, "target")) == (ind.data["obj"] if ind else None)
+        # nothing else is asserted on the way: the equivalent objective is a definition, not a constraint on the schedules
+        is_def = lambda t: is_app(t, "==") and len(t) == 4 and var in (t[2], t[3]) and \
+            (canon(t[2] if t[3] == var else t[3]) == canon(want_sum)
+             or any(s and s[0] == "z3var" and "Indicator_" in show(s) for s in subterms(t)))
+        extra = [t for t in terms if not is_def(t)]
+        for t in extra:
+            ctx.violation("R-WEIGHTED", where, f"assertion beyond the definition of the equivalent objective: {show(t)[:80]}",
+                          f"{show(t)[:200]} is asserted while the weighted objective is built: it holds for no reason in every valid "
+                          f"schedule, and it is asserted only in the configurations that build the weighted objective (incremental "
+                          f"optimiser, or priority 'weight'), so the set of valid schedules depends on the optimiser options", LOC)
         if ok_ind and drained and ok_obj:
             ctx.ok("R-WEIGHTED", f"{where}: the indicator on the sum is asserted and becomes the single objective")
         else:
@@ -452,8 +462,8 @@ def r_objective_handed(ctx):
 
 def r_makespan_is_the_horizon(ctx):
     """ObjectiveMinimizeMakespan minimises the horizon variable: that is the makespan only because every task end is asserted
-    <= the horizon variable (R-HORIZON, shared with C01 / C11)"""
-    task_rules.r_horizon(ctx)
+    <= the horizon variable (R-HORIZON, shared with C01 / C11), and a user horizon only bounds that variable"""
+    task_rules.r_horizon(ctx, exact=True)
 
 
 def r_objective_is_a_function_of_the_schedule(ctx):
@@ -782,7 +792,20 @@ def r_solver_readonly(ctx):
                 cont = ev.data["container"]
                 if isinstance(cont, tuple) and cont[0] == "attr" and cont[1] == S("self.problem") and ev.site.func.startswith("SchedulingSolver"):
                     found.setdefault((f"SchedulingSolver.{ev.site.func.split('.')[-1]}", f"problem.{cont[2]}"), srcline(ev.site))
+            for ev in run.events_of("mcall"):
+                recv = ev.data["recv"]
+                if isinstance(recv, tuple) and recv[0] == "attr" and recv[1] == S("self.problem") and ev.site.func.startswith("SchedulingSolver") \
+                        and ev.data["name"] in ("pop", "popitem", "clear", "update", "setdefault", "remove", "append", "extend", "insert",
+                                                "discard", "add", "__delitem__", "__setitem__", "sort", "reverse"):
+                    found.setdefault((f"SchedulingSolver.{ev.site.func.split('.')[-1]}", f"problem.{recv[2]}.{ev.data['name']}()"),
+                                     srcline(ev.site))
     for (where, what), location in sorted(found.items()):
+        if what.endswith("()"):
+            ctx.violation("R-SOLVER-READONLY", where, f"modifies {what[:-2]}",
+                          f"the solver phase calls `{what}` on a registry of the problem: what the next initialize() / solver / export "
+                          f"reads is no longer what the user declared (and an element read before the modification may be used after it)",
+                          location)
+            continue
         ctx.violation("R-SOLVER-READONLY", where, f"creates / writes {what}",
                       f"the solver phase constructs a self-registering `{what}` (it is added to the global active problem): a second "
                       f"solver on the same problem fails with 'already exists', and the problem is no longer what the user declared",
